@@ -34,7 +34,8 @@ CHECKS = {
          "parameters); the harness composes URLs by the documented grammar, calls the real ParseURL and TLC compares every field "
          "(exhaustive cores + seeded sample of the product; raw and mutated strings must yield URL or error). Dialers.tla models the "
          "registry as a linearisable object (TLC design check); concurrent register/unregister/dial histories of the real registry, "
-         "run under the race detector, are validated by TLC with the linearisation steps inferred.",
+         "run under the race detector, are validated by TLC with the linearisation steps inferred; a Go runtime abort inside a registry "
+         "function of the library (unsynchronised map) is a violation.",
     note="Trusted: TLC, net/url escaping used for composition, the upper-case table generated with the vocabulary, Go race detector, "
          "recorder lock as happens-before order. Concurrency is sampled (runtime schedules), not exhaustively scheduled.",
     technique="TLA+ expected-parse operator + linearisability checking of recorded concurrent histories by TLC",
@@ -47,7 +48,9 @@ CHECKS = {
          "validated by TLC against the property monitor B2FProps.tla (each event must be an enabled action; End requires "
          "CompleteExchange, exact statistics, both nil, both closed); the mechanism model B2F.tla is model-checked against the same "
          "monitor properties, and the same recorded executions are validated against it (B2FTrace.tla: silent steps inferred by TLC; "
-         "a rejection there alone is reported as SPEC-DRIFT).",
+         "a rejection there alone is reported as SPEC-DRIFT). The run also model-checks RobustMode.tla (robust-mode switching of a "
+         "session, with two named wrong variants) and validates one trace per station of real sessions, clean and cut, whose "
+         "connection records every SetRobust call (RobustModeTrace.tla; outside the listed property, so a rejection is SPEC-DRIFT).",
     note="Trusted: TLC, the wire lexer and bitwise CRC written from docs/F6FBB-B2F, byte identity by bytes.Equal, recorder order "
          "(events are appended inside the call path). Message sets and segmentations are sampled beyond the seed-independent core.",
     technique="TLA+ property monitor + mechanism model; TLC trace validation of recorded real two-station sessions",
@@ -169,10 +172,12 @@ CHECKS = {
     design="4 C07"),
  "C08": dict(
     level="exploration",
-    text="Every truncation, bit flips, header edits (sizes -1, 0, true+-1, +60, 2^31-1, -2^31, with/without repaired CRC), CRC edits, "
+    text="Every truncation, bit flips, header edits (sizes -1, 0, true+-1, +60, 2^31-1, -2^31, with/without repaired CRC), CRC edits (incl. the values a reader "
+         "would compute with one to four extra flush bytes), "
          "splices of valid streams and random bytes with plausible headers are read through the real Reader with buffer sizes "
          "{1,2,59,60,61,4096}; every NewReader/Read/Close is an event validated by TLC against LzhufStream.tla (no panic, no (0,nil) "
-         "spinning within a read budget, sticky errors, at most the declared size, Close = nil only if CRC and size hold). For "
+         "spinning within a read budget, sticky errors, at most the declared size, Close = nil only if CRC and size hold; Close is asked "
+         "up to three times and a later success counts as the reader's). For "
          "survivors (Close = nil) the canonical decoding is computed by Lzhuf.tla (TLC) and must equal the bytes read.",
     note="Mutations are sampled with a stride in the quick tier; survivors judged by the reference codec are budgeted.",
     technique="mutation exploration judged by TLC trace validation against the stream contract + TLA+ reference decoding of survivors",
